@@ -20,7 +20,9 @@ EXPLANATION = (
     'projection consumes the below-map with tf.minimum in reverse topological '
     'order and the max projection the above-map with tf.maximum in forward '
     'order, each two-pass chain ends with a full step and the two feasible '
-    'results are averaged (O2); linear dominance pairs are re-oriented to '
+    'results are averaged, and the topological order is a depth-first '
+    'finish order: an index is emitted only once none of its successors is '
+    'unvisited, and emitted in front of everything emitted before (O2); linear dominance pairs are re-oriented to '
     '(weak, dominant) for both dominance kinds while categorical pairs pass '
     'unchanged, and both assert functions use the same orientation (A4); range '
     'scaling is multiplied in and divided out with the same tensor built from '
@@ -37,13 +39,14 @@ IU = 'internal_utils'
 def run(prog, res):
   _masks(prog, res)
   _partial_order(prog, res)
+  _toposort(prog, res)
   _orientation(prog, res)
   _scaling(prog, res)
   _norm(prog, res)
   _categorical_project(prog, res)
   _wiring(prog, res)
   res.floor('P3', 2)
-  res.floor('O2', 10)
+  res.floor('O2', 12)
   res.floor('A4', 5)
   res.floor('P4', 4)
   res.floor('X1', 2)
@@ -468,6 +471,9 @@ def _categorical_project(prog, res):
             'the clipped tensor is returned',
             'categorical project does not return the clipped tensor')
   roles.check_clip_polarity(prog, res, fn)
+  guards.check_bound_guards(prog, res, fn, [('output_min', 'min'),
+                                            ('output_max', 'max')])
+  res.floor('K3', 2)
 
 
 def _wiring(prog, res):
@@ -488,3 +494,115 @@ def _wiring(prog, res):
               'the projection is applied unconditionally',
               'the projection call in %s.__call__ is guarded by %s' % (
                   cls.name, [norm_text(g[0]) for g in gs]))
+
+
+def _toposort(prog, res):
+  """O2: the sorted index list the two chain projections walk is produced by
+  an explicit-stack depth-first search.  It is a topological order only if a
+  vertex is emitted when it FINISHES (no unvisited successor left) and the
+  emitted sequence is reversed finish order (prepend, or append + reverse).
+  Emitting on discovery gives a pre-order, which is not topological for any
+  vertex reached before one of its predecessors."""
+  fn = prog.function(IU + '._topological_sort')
+  res.analysed(fn)
+  key = fn.qualname
+  loops = [n for n in fn.node.body if isinstance(n, ast.While)]
+  if len(loops) != 1:
+    raise AnalysisError('%s: expected one explicit-stack while loop' % key)
+  loop = loops[0]
+  stack = dotted(loop.test)
+  top = None
+  for st in loop.body:
+    if isinstance(st, ast.Assign) and isinstance(st.value, ast.Subscript) \
+        and dotted(st.value.value) == stack and const_value(
+            st.value.slice, None) == -1:
+      top = dotted(st.targets[0])
+  if top is None:
+    raise AnalysisError('%s: `v = %s[-1]` not found' % (key, stack))
+  expand = None
+  for st in ast.walk(loop):
+    if isinstance(st, ast.Assign) and isinstance(st.value, ast.ListComp):
+      g = st.value.generators[0]
+      it = g.iter
+      unseen = [c for c in g.ifs if isinstance(c, ast.Compare) and isinstance(
+          c.ops[0], ast.NotIn)]
+      if isinstance(it, ast.Subscript) and dotted(it.slice) == top and unseen:
+        expand = dotted(st.targets[0])
+        seen = dotted(unseen[0].comparators[0])
+  if expand is None:
+    raise AnalysisError('%s: list of unvisited successors not found' % key)
+  # emissions of the top vertex into the result list
+  ret = [r for r in ast.walk(fn.node) if isinstance(r, ast.Return)]
+  if len(ret) != 1:
+    raise AnalysisError('%s: expected one return' % key)
+  rv = ret[0].value
+  reversed_ret = False
+  if isinstance(rv, ast.Subscript) and isinstance(rv.slice, ast.Slice) and \
+      const_value(rv.slice.step, None) == -1:
+    out, reversed_ret = dotted(rv.value), True
+  elif isinstance(rv, ast.Call) and dotted(rv.func) in ('reversed', 'list') \
+      and rv.args:
+    inner = rv.args[0]
+    if isinstance(inner, ast.Call) and dotted(inner.func) == 'reversed':
+      inner = inner.args[0]
+      reversed_ret = True
+    elif dotted(rv.func) == 'reversed':
+      reversed_ret = True
+    out = dotted(inner)
+  else:
+    out = dotted(rv)
+  if out is None:
+    raise AnalysisError('%s: returned list not recognised' % key)
+  emits = []
+  for st in ast.walk(loop):
+    kind = None
+    if isinstance(st, ast.Assign) and dotted(st.targets[0]) == out and \
+        isinstance(st.value, ast.BinOp) and isinstance(st.value.op, ast.Add):
+      l, r = st.value.left, st.value.right
+      def single(e):
+        return isinstance(e, ast.List) and len(e.elts) == 1 and dotted(
+            e.elts[0]) == top
+      if single(l) and dotted(r) == out:
+        kind = 'prepend'
+      elif single(r) and dotted(l) == out:
+        kind = 'append'
+    elif isinstance(st, ast.AugAssign) and dotted(st.target) == out and \
+        isinstance(st.op, ast.Add) and isinstance(st.value, ast.List) and \
+        len(st.value.elts) == 1 and dotted(st.value.elts[0]) == top:
+      kind = 'append'
+    elif isinstance(st, ast.Expr) and isinstance(st.value, ast.Call) and \
+        isinstance(st.value.func, ast.Attribute) and dotted(
+            st.value.func.value) == out:
+      c = st.value
+      if c.func.attr == 'append' and len(c.args) == 1 and dotted(
+          c.args[0]) == top:
+        kind = 'append'
+      elif c.func.attr == 'insert' and len(c.args) == 2 and const_value(
+          c.args[0], None) == 0 and dotted(c.args[1]) == top:
+        kind = 'prepend'
+    if kind:
+      emits.append((st, kind))
+  if len(emits) != 1:
+    raise AnalysisError('%s: expected exactly one statement that emits the '
+                        'top vertex into %s, found %d' % (key, out, len(emits)))
+  st, kind = emits[0]
+  gs = structural_guards(loop, st) or []
+  finished = any((norm_text(t) == expand and not pol) or
+                 (isinstance(t, ast.UnaryOp) and isinstance(t.op, ast.Not) and
+                  dotted(t.operand) == expand and pol) for t, pol in gs)
+  res.check(finished, 'O2', key + '|emit-on-finish', fn.loc(st),
+            'a vertex is emitted only when `%s` (its unvisited successors) is '
+            'empty' % expand,
+            'the vertex is emitted under %s, not when its list of unvisited '
+            'successors `%s` is empty: the result is a discovery (pre-) order, '
+            'which is not topological when a vertex is reached before one of '
+            'its predecessors' % ([('' if pol else 'not ') + norm_text(t)
+                                   for t, pol in gs] or 'no guard', expand))
+  res.check((kind == 'prepend') != reversed_ret, 'O2',
+            key + '|reverse-finish-order', fn.loc(st),
+            'finish order is reversed (%s%s)' % (
+                kind, ' + reversed return' if reversed_ret else ''),
+            'vertices are emitted by %s and the list is returned %s: the '
+            'result is finish order (successors first), the reverse of a '
+            'topological order' % (kind, 'reversed' if reversed_ret else
+                                   'as is'))
